@@ -136,10 +136,36 @@ func (st *state) render(sp *Spec, F sk.F3, fail func(string)) *rendered {
 	case "octree":
 		obj = render.NewMarchingCubesOctree(sp.Cells)
 	case "mc":
-		render.VerifMarchingCubes(rec, bb, sp.Step, col)
+		// rendered below (a panic of the renderer is a failing input)
 	default:
 		fail("bad renderer " + sp.Renderer)
 		return nil
+	}
+	panicked := func() (msg string) {
+		defer func() {
+			if e := recover(); e != nil {
+				msg = fmt.Sprint(e)
+			}
+		}()
+		if sp.Renderer == "mc" {
+			render.VerifMarchingCubes(rec, bb, sp.Step, col)
+		}
+		return ""
+	}
+	if sp.Renderer == "mc" {
+		if msg := panicked(); msg != "" {
+			fail("renderer panicked: " + msg)
+			return nil
+		}
+	}
+	renderObj := func(s sdf.SDF3, w sdf.Triangle3Writer) (msg string) {
+		defer func() {
+			if e := recover(); e != nil {
+				msg = fmt.Sprint(e)
+			}
+		}()
+		obj.Render(s, w)
+		return ""
 	}
 	if obj != nil {
 		for i := range sp.Prev {
@@ -149,9 +175,15 @@ func (st *state) render(sp *Spec, F sk.F3, fail func(string)) *rendered {
 				fail("bad spec: " + err.Error())
 				return nil
 			}
-			obj.Render(&sk.Fn3{F: Fp.F, BB: sdf.Box3{Min: vec(p.BBMin), Max: vec(p.BBMax)}}, &sk.TriCollector{})
+			if msg := renderObj(&sk.Fn3{F: Fp.F, BB: sdf.Box3{Min: vec(p.BBMin), Max: vec(p.BBMax)}}, &sk.TriCollector{}); msg != "" {
+				fail("renderer panicked on an earlier render of the sequence: " + msg)
+				return nil
+			}
 		}
-		obj.Render(rec, col)
+		if msg := renderObj(rec, col); msg != "" {
+			fail("renderer panicked: " + msg)
+			return nil
+		}
 	}
 	out := &rendered{tris: col.T, rec: rec}
 	var xs, ys, zs []float64
@@ -274,7 +306,10 @@ func (st *state) do(sp *Spec, stratum string, rng *Rng) {
 		}
 	}
 	// --- vertices
-	tol := 1e-9 * scale
+	// "to rounding": relative 1e-9 of the model size, plus the documented snapping window of mcInterpolate
+	// (a crossing within epsilon = 1e-12 of a lattice point is put on it) which matters for tiny models only
+	const snapAllowance = 1.0001e-12
+	tol := 1e-9*scale + snapAllowance
 	worst := 0.0
 	for ti, t := range o.tris {
 		for _, v := range t {
@@ -287,7 +322,7 @@ func (st *state) do(sp *Spec, stratum string, rng *Rng) {
 			case "plane":
 				worst = math.Max(worst, math.Abs(fv)/tol)
 				if math.Abs(fv) > tol {
-					fail(fmt.Sprintf("plane: vertex %v of triangle %d has f = %g (> 1e-9 * %g)", v, ti, fv, scale))
+					fail(fmt.Sprintf("plane: vertex %v of triangle %d has f = %g (> 1e-9 * %g + 1e-12): not the zero crossing of its lattice edge", v, ti, fv, scale))
 					return
 				}
 			case "sphere":
@@ -295,7 +330,7 @@ func (st *state) do(sp *Spec, stratum string, rng *Rng) {
 				if o.hmax < R {
 					b := o.hmax * o.hmax / (8 * (R - o.hmax))
 					worst = math.Max(worst, -fv/b)
-					if fv > 1e-11*scale || fv < -b*(1+1e-9)-1e-11*scale {
+					if fv > 1e-11*scale+snapAllowance || fv < -b*(1+1e-9)-1e-11*scale-snapAllowance {
 						fail(fmt.Sprintf("sphere R=%g h=%g: vertex %v has f = %g outside [-h^2/(8(R-h)), 0] = [%g, 0]", R, o.hmax, v, fv, -b))
 						return
 					}
@@ -490,6 +525,41 @@ func genSpec(rng *Rng, renderer string, cells int) *Spec {
 	return sp
 }
 
+// scaleSpec multiplies the whole scene (bounding box, shape) by k
+func scaleField(f *sk.Field, k float64) *sk.Field {
+	if f == nil {
+		return nil
+	}
+	g := *f
+	mul := func(a []float64) []float64 {
+		o := make([]float64, len(a))
+		for i, x := range a {
+			o[i] = x * k
+		}
+		return o
+	}
+	switch f.Kind {
+	case "sphere":
+		g.C, g.R = mul(f.C), f.R*k
+	case "box":
+		g.C, g.H = mul(f.C), mul(f.H)
+	case "plane":
+		g.R = f.R * k // C is the normal
+	}
+	g.A, g.B = scaleField(f.A, k), scaleField(f.B, k)
+	return &g
+}
+func scaleSpec(sp *Spec, k float64) *Spec {
+	o := *sp
+	o.BBMin, o.BBMax = make([]float64, 3), make([]float64, 3)
+	for a := 0; a < 3; a++ {
+		o.BBMin[a], o.BBMax[a] = sp.BBMin[a]*k, sp.BBMax[a]*k
+	}
+	o.Step = sp.Step * k
+	o.Shape = scaleField(sp.Shape, k)
+	return &o
+}
+
 // volume of the rendered sphere against 4/3 pi R^3 at cells, 2*cells, 4*cells: observed order
 func (st *state) volumeOrder(rng *Rng, renderer string, base int) {
 	r := st.r
@@ -565,6 +635,80 @@ func check(c *Ctx, r *Report) error {
 		st.do(&specs[i], "corpus", rng)
 	}
 	if c.Replay == "" {
+		// ---- mcInterpolate itself (through the C05 hook): bit-exact against the model (coq/Render/Interp.v at
+		// primitive floats, cases evaluated by Render/MarchCorr.v) and, directly, "the vertex is the linear zero
+		// crossing of its lattice edge": corner values of magnitude 1e-13 .. 1e-3 (log-uniform) on either or both
+		// ends, equal values, values straddling the documented epsilon = 1e-12
+		ics := &Cases{Kind: "mcinterp", Imports: "From Sdfx Require Import Render.MarchCorr.\nOpen Scope Z_scope.", Type: "icase3", Fn: "imismatches3", InfoFn: "iinexact3", PerShard: 1500}
+		ni := TierN(c.Tier, 1500, 20000, 5000)
+		for k := 0; k < ni; k++ {
+			small := func() float64 { return math.Pow(10, rng.Uniform(-13, -3)) }
+			gen := func() float64 { return rng.Uniform(0.05, 2) }
+			var a, b float64
+			var stratum string
+			switch k % 6 {
+			case 0:
+				a, b, stratum = small(), gen(), "one end 1e-13..1e-3"
+			case 1:
+				a, b, stratum = gen(), small(), "other end 1e-13..1e-3"
+			case 2:
+				a, b, stratum = small(), small(), "both ends 1e-13..1e-3"
+			case 3:
+				a = small()
+				b, stratum = a, "equal magnitudes"
+			case 4:
+				a, b, stratum = 1e-12*rng.Uniform(0.5, 2), 1e-12*rng.Uniform(0.5, 2), "straddling epsilon"
+			default:
+				a, b, stratum = gen(), gen(), "generic"
+			}
+			v1, v2 := -a, b
+			if rng.Bool() {
+				v1, v2 = b, -a
+			}
+			if k%6 == 3 && k%12 == 3 {
+				v2 = v1 // equal values, no crossing
+				stratum = "equal values"
+			}
+			x := 0.0
+			if k%9 == 4 {
+				x = math.Round(rng.Uniform(-2, 2)*8) / 8
+				v1, v2 = v1+x, v2+x
+			}
+			sc := []float64{1, 1, 1e-5, 1e3}[k%4]
+			p1 := v3.Vec{X: rng.Uniform(-3, 3) * sc, Y: rng.Uniform(-3, 3) * sc, Z: rng.Uniform(-3, 3) * sc}
+			p2 := p1
+			h := rng.Uniform(0.01, 1) * sc
+			switch k % 3 {
+			case 0:
+				p2.X += h
+			case 1:
+				p2.Y += h
+			default:
+				p2.Z += h
+			}
+			g := render.VerifMcInterpolate(p1, p2, v1, v2, x)
+			st.id++
+			ics.Add(fmt.Sprintf("(%d%%N, %s, %s, %s, %s, %s, %s)", st.id, sk.CF3(p1), sk.CF3(p2), CF(v1), CF(v2), CF(x), sk.CF3(g)))
+			key := fmt.Sprintf("mcInterpolate:%x,%x,%x|%v|%v", v1, v2, x, p1, p2)
+			straddle := (v1 < x) != (v2 < x)
+			r.Case("mcInterpolate/"+stratum, key, straddle)
+			if !straddle {
+				continue
+			}
+			d := p2.Sub(p1)
+			t := g.Sub(p1).Dot(d) / d.Dot(d)
+			in := map[string]interface{}{"p1": p1, "p2": p2, "v1": v1, "v2": v2, "x": x}
+			if off := g.Sub(p1.Add(d.MulScalar(t))).Length(); t < -1e-9 || t > 1+1e-9 || off > 1e-9*(h+p1.Length()) {
+				r.Violate(key, fmt.Sprintf("C06 mcInterpolate result %v is not on the lattice edge %v-%v (t=%g)", g, p1, p2, t), in)
+			} else if lv := (v1 - x) + t*(v2-v1); math.Abs(lv) > 1.0001e-12+1e-9*(math.Abs(v1-x)+math.Abs(v2-x)) {
+				r.Violate(key, fmt.Sprintf("C06 vertex is not the linear zero crossing of its lattice edge: values %g, %g at the ends (level %g), vertex at t=%g where the interpolated value is %g off the level", v1, v2, x, t, lv), in)
+			}
+		}
+		if err := ics.Write(c.Out); err != nil {
+			return err
+		}
+	}
+	if c.Replay == "" {
 		// small lattices first (they also go to Coq), then resolutions up to 64
 		small := []int{3, 4, 5, 6, 7, 8}
 		large := []int{10, 12, 16, 20, 25, 32, 40, 50, 64}
@@ -584,6 +728,88 @@ func check(c *Ctx, r *Report) error {
 					sp := genSpec(rng, rd, n)
 					st.do(sp, fmt.Sprintf("%s/%s/cells>8", rd, sp.Shape.Kind), rng)
 				}
+			}
+		}
+		// non-cubic lattices: boxes and spheres whose bounding box has three different extents, all 6 orderings
+		// of the axes (the layer cache is indexed y*(nz+1)+z: cell counts along x, y, z must all differ somewhere)
+		for rep := 0; rep < TierN(c.Tier, 1, 4, 2); rep++ {
+			ext := []float64{1, 1.5, 2}
+			if rep > 0 {
+				ext = []float64{0.5 + rng.Float(), 1.6 + rng.Float(), 2.7 + rng.Float()}
+			}
+			for _, pm := range [][3]int{{0, 1, 2}, {0, 2, 1}, {1, 0, 2}, {1, 2, 0}, {2, 0, 1}, {2, 1, 0}} {
+				h := []float64{ext[pm[0]], ext[pm[1]], ext[pm[2]]}
+				ctr := v3.Vec{X: math.Round(rng.Uniform(-2, 2)*4) / 4, Y: math.Round(rng.Uniform(-2, 2)*4) / 4, Z: math.Round(rng.Uniform(-2, 2)*4) / 4}
+				cc := []float64{ctr.X, ctr.Y, ctr.Z}
+				mn, mx := boxAround(ctr, vec(h))
+				for _, rd := range []string{"uniform", "mc", "octree"} {
+					n := []int{7, 12, 19}[rng.Intn(3)]
+					for _, sh := range []*sk.Field{{Kind: "box", C: cc, H: h}, {Kind: "sphere", C: cc, R: 0.9 * math.Min(h[0], math.Min(h[1], h[2]))}} {
+						sp := &Spec{Renderer: rd, Cells: n, BBMin: append([]float64(nil), mn...), BBMax: append([]float64(nil), mx...), Shape: sh}
+						if rd == "mc" {
+							sp.Step = (mx[0] - mn[0]) / float64(n) * pick(rng, 1, 0.9, 1.1)
+							for a := 0; a < 3; a++ {
+								sp.BBMin[a] -= sp.Step
+								sp.BBMax[a] += sp.Step
+							}
+						}
+						st.do(sp, fmt.Sprintf("noncubic/%s/%s/axes%d%d%d", rd, sh.Kind, pm[0], pm[1], pm[2]), rng)
+					}
+				}
+			}
+		}
+		// absolute scale is a generated dimension: the same generator at model sizes 1e-5 .. 1e3 (tolerances in
+		// the code are absolute, the property is not)
+		for rep := 0; rep < TierN(c.Tier, 2, 8, 4); rep++ {
+			for _, sc := range []float64{1e-5, 1e-4, 1e-3, 1e3} {
+				for _, rd := range []string{"uniform", "octree"} {
+					n := []int{8, 20, 40}[rng.Intn(3)]
+					sp := scaleSpec(genSpec(rng, rd, n), sc)
+					st.do(sp, fmt.Sprintf("scale=%g/%s/%s", sc, rd, sp.Shape.Kind), rng)
+				}
+			}
+		}
+		// axis-aligned planes a hair (1e-9 .. 1e-6 model units, either side) off a lattice layer: the lattice of
+		// (box, cells) is read from a first render, the plane is then placed against one of its layers
+		for rep := 0; rep < TierN(c.Tier, 6, 40, 12); rep++ {
+			for _, rd := range []string{"uniform", "octree"} {
+				n := []int{10, 20, 33, 40}[rng.Intn(4)]
+				ctr := v3.Vec{X: rng.Uniform(-1, 1), Y: rng.Uniform(-1, 1), Z: rng.Uniform(-1, 1)}
+				if rep%2 == 0 {
+					ctr = v3.Vec{}
+				}
+				mn, mx := boxAround(ctr, v3.Vec{X: 1, Y: 1 + 0.25*float64(rep%3), Z: 1})
+				axis := rng.Intn(3)
+				nrm := []float64{0, 0, 0}
+				nrm[axis] = 1
+				probe := &Spec{Renderer: rd, Cells: n, BBMin: mn, BBMax: mx, Shape: &sk.Field{Kind: "plane", C: nrm, R: []float64{ctr.X, ctr.Y, ctr.Z}[axis] + 0.01}}
+				Fp, _ := probe.Shape.Build3(sk.Grid3{Res: 1}, 0, nil)
+				o := st.render(probe, Fp, func(w string) { r.Violate(probe.key(), "C06 "+w, probe) })
+				if o == nil {
+					continue
+				}
+				var layersA []float64
+				if rd == "uniform" {
+					layersA = [][]float64{o.xs, o.ys, o.zs}[axis]
+				} else {
+					// corner layers of the octree lattice inside the bounding box
+					bbx := sdf.Box3{Min: vec(mn), Max: vec(mx)}
+					res := 0.5 * bbx.Size().MaxComponent() / float64(n)
+					o0 := []float64{o.lo.X, o.lo.Y, o.lo.Z}[axis]
+					for k := 0; o0+float64(2*k)*res < mx[axis]; k++ {
+						if o0+float64(2*k)*res > mn[axis] {
+							layersA = append(layersA, o0+float64(2*k)*res)
+						}
+					}
+				}
+				if len(layersA) < 4 {
+					continue
+				}
+				layer := layersA[1+rng.Intn(len(layersA)-2)]
+				delta := math.Pow(10, rng.Uniform(-9, -6)) * pick(rng, 1, -1)
+				sp := &Spec{Renderer: rd, Cells: n, BBMin: mn, BBMax: mx, Shape: &sk.Field{Kind: "plane", C: nrm, R: layer + delta},
+					Note: fmt.Sprintf("plane %g off the lattice layer %v of axis %d", delta, layer, axis)}
+				st.do(sp, fmt.Sprintf("plane-near-layer/%s", rd), rng)
 			}
 		}
 		// renderer reuse: ONE renderer object renders solids with EQUAL bounding boxes one after the other
